@@ -174,6 +174,16 @@ def run_labels(ck):
     disagree = [c for c in ok if (c["id"] in bad_ids) == bool(c["go_valid"] and c["go_equal"])]
     ck.obligation("cross-check: encoding/json (strict use) and LabelJson.json_decode agree on every observed document", not disagree,
                   "case ids: %s" % [c["id"] for c in disagree[:10]])
+    # the READ side's own decoder (reader/service storedLabels, used by /series since d82d164) on every observed document
+    rbad = [c for c in ok if c.get("names_distinct") and c.get("reader") != "ok"]
+    ndist = sum(1 for c in ok if c.get("names_distinct"))
+    ck.obligation("spec: the reader's decoder of stored label documents (storedLabels, Go encoding/json into a map) returns exactly the sanitized label set for every generated set with distinct names (%d sets)" % ndist,
+                  not rbad and ndist > 0, "case ids: %s" % [(c["id"], c.get("reader")) for c in rbad[:5]])
+    if rbad:
+        c = min(rbad, key=size)
+        ck.violation({"property": "C04", "part": "labels", "kind": "the reader's decoder of stored label documents does not return the label set the document was written for",
+                      "case": c, "readable": show_labels(c), "reader": c.get("reader"), "replay": "seriesid --mode labels --cases <file with this case>"})
+    ck.extra["labels_sets_with_duplicate_names_after_sanitize"] = len(ok) - ndist
     # protocol coverage must not silently vanish (a parser that starts failing would otherwise hide)
     unexpected = []
     for c in ok:
@@ -248,7 +258,7 @@ def run_labels(ck):
 
 
 # ------------------------------------------------------------------------------------------ protocols
-P_LISTS = ["M_pfp", "M_pdjb", "M_pdoc", "V_pperm", "V_pdoc", "K_unsan", "M_phdr", "K_hdr"]
+P_LISTS = ["M_pfp", "M_pdjb", "M_pdoc", "V_pperm", "V_pdoc", "K_unsan", "M_phdr", "K_hdr", "M_ploki", "V_pproto", "V_phdr", "C_unsan_same", "C_unsan"]
 
 
 def coq_hexpairs(pairs):
@@ -260,7 +270,9 @@ def wire_to_coq(w):
     hb = lambda h: coq_bytes(unhex(h))
     f = w.get("fields") or []
     if k == "dd_logs":
-        return "WDatadogLogs %s %s %s %s %s" % (coq_hexpairs(w.get("tags")), hb(f[0]), hb(f[1]), hb(f[2]), hb(f[3]))
+        # the tags are computed INSIDE Coq from the ddtags text as sent (model/DdTags.v: the regular expression)
+        letters = coq_list(["(%d, %s)" % (r, "true" if v else "false") for r, v in w.get("letters") or []])
+        return "WDatadogLogs (dd_tags (tbl_lookup %s) %s) %s %s %s %s" % (letters, hb(w.get("ddtags", "")), hb(f[0]), hb(f[1]), hb(f[2]), hb(f[3]))
     if k == "dd_cf":
         names = ["cf_ddsource", "cf_script", "cf_outcome", "cf_event", "cf_action_result", "cf_action_type", "cf_actor_type", "cf_resource_type"]
         return "WDatadogCF {| %s |}" % "; ".join("%s := %s" % (n, hb(v)) for n, v in zip(names, f))
@@ -277,18 +289,26 @@ def wire_to_coq(w):
     if k == "es_bulk":
         return "WElasticBulk %s %s" % (hb(f[0]), coq_hexpairs(w.get("tags")))
     if k == "otlp":
+        def val(v):
+            t = v["t"]
+            if t == "s":
+                return "OStr %s" % hb(v.get("s", ""))
+            if t == "b":
+                return "OBool %s" % ("true" if v.get("b") else "false")
+            if t == "i":
+                return "OInt (%d)" % int(v["i"])
+            if t == "d":
+                return "ODouble %d%%N" % int(v["d"])
+            if t == "y":
+                return "OBytes %s" % hb(v.get("s", ""))
+            if t == "a":
+                return "OArr %s" % coq_list(["(%s)" % val(x) for x in v.get("a") or []])
+            if t == "kv":
+                return "OKv %s" % coq_list(["(%s, %s)" % (hb(x["k"]), val(x["v"])) for x in v.get("kv") or []])
+            return "ONone"
+
         def attrs(l):
-            out = []
-            for a, b in l or []:
-                v = unhex(b)
-                if v.startswith(b"\x00b:"):
-                    val = "OBool %s" % ("true" if v[3:] == b"true" else "false")
-                elif v.startswith(b"\x00i:"):
-                    val = "OInt (%d)" % int(v[3:])
-                else:
-                    val = "OStr %s" % coq_bytes(v)
-                out.append("(%s, %s)" % (coq_bytes(unhex(a)), val))
-            return coq_list(out)
+            return coq_list(["(%s, %s)" % (hb(x["k"]), val(x["v"])) for x in l or []])
         return "WOtlpLogs (otlp_map %s %s %s %s)" % (attrs(w.get("res")), attrs(w.get("scope")), attrs(w.get("rec")), hb(w.get("sev", "")))
     if k == "loki_ttl":
         return "WSanitized LokiJsonStream %s" % coq_hexpairs(w.get("tags"))
@@ -298,20 +318,38 @@ def wire_to_coq(w):
 
 
 def pcase_to_coq(c):
-    return ("{| pc_id := %d; pc_wire := %s; pc_ch := %s; pc_print := %s; pc_fp := %s; pc_fps := %s; pc_fp_djb := %s; pc_fps_djb := %s; pc_doc := %s; pc_has_hdr := %s; pc_fp_hdr := %s |}" % (
+    return ("{| pc_id := %d; pc_wire := %s; pc_ch := %s; pc_print := %s; pc_fp := %s; pc_fps := %s; pc_fp_djb := %s; pc_fps_djb := %s; pc_doc := %s; pc_has_hdr := %s; pc_fp_hdr := %s; pc_has_loki := %s; pc_fp_loki := %s |}" % (
         c["id"], wire_to_coq(c["wire"]),
         coq_list(["(%s, %s)" % (coq_bytes(unhex(h)), coq_u64(v)) for h, v in c.get("ch") or []]),
         coq_list(["(%d, %s)" % (r, "true" if p else "false") for r, p in (c.get("print") or [])]),
         coq_u64(c["fp"]), coq_list([coq_u64(x) for x in c.get("fps") or []]), coq_u64(c["fp_djb"]), coq_list([coq_u64(x) for x in c.get("fps_djb") or []]), coq_bytes(unhex(c["doc"])),
-        "true" if c.get("has_hdr") else "false", coq_u64(c.get("fp_hdr") or 0)))
+        "true" if c.get("has_hdr") else "false", coq_u64(c.get("fp_hdr") or 0),
+        "true" if c.get("has_loki") else "false", coq_u64(c.get("fp_loki") or 0)))
 
 
 def show_proto(c):
     dh = lambda h: unhex(h).decode("latin1")
-    w = dict(c["wire"])
-    for key in ("tags", "res", "scope", "rec"):
+    w = json.loads(json.dumps(c["wire"]))
+
+    def sval(v):
+        t = v["t"]
+        if t in ("s", "y"):
+            return {t: dh(v.get("s", ""))}
+        if t == "d":
+            import struct
+            return {"double": repr(struct.unpack("<d", struct.pack("<Q", int(v["d"])))[0])}
+        if t == "a":
+            return {"array": [sval(x) for x in v.get("a") or []]}
+        if t == "kv":
+            return {"kvlist": [[dh(x["k"]), sval(x["v"])] for x in v.get("kv") or []]}
+        return {t: v.get("b") if t == "b" else v.get("i")}
+    if w.get("tags"):
+        w["tags"] = [[dh(a), dh(b)] for a, b in w["tags"]]
+    for key in ("res", "scope", "rec"):
         if w.get(key):
-            w[key] = [[dh(a), dh(b)] for a, b in w[key]]
+            w[key] = [[dh(x["k"]), sval(x["v"])] for x in w[key]]
+    if w.get("ddtags"):
+        w["ddtags"] = dh(w["ddtags"])
     if w.get("fields"):
         w["fields"] = [dh(x) for x in w["fields"]]
     if w.get("sev"):
@@ -345,7 +383,7 @@ def run_protos(ck):
     shard = 400
     for k in range(0, len(ok), shard):
         txt = ("From Coq Require Import List ZArith Bool String Ascii Uint63.\n"
-               "From Qryn Require Import model.GoQuote model.LabelJson model.Fingerprint model.Labels model.ProtoLabels.\n"
+               "From Qryn Require Import model.GoQuote model.LabelJson model.Fingerprint model.Labels model.DdTags model.ProtoLabels.\n"
                "Import ListNotations.\nOpen Scope Z_scope.\n"
                "Definition cases : list pcase := [\n  " + ";\n  ".join(pcase_to_coq(c) for c in ok[k:k + shard]) + "].\n"
                "Definition R := Eval vm_compute in preport cases.\nPrint R.\n")
@@ -367,6 +405,48 @@ def run_protos(ck):
                   "case ids: %s" % res["V_pperm"][:10])
     ck.obligation("spec: the labels text stored by these decoders is JSON and decodes to the label list they built", not res["V_pdoc"],
                   "case ids: %s" % res["V_pdoc"][:10])
+    # --- protocol / request independence, with the two recorded findings as EXACT classes (model/ProtoLabels.v
+    #     in_unsanitized_class, in_ttl_class; theorem fingerprint_depends_on_sanitized_set_only_partial covers the rest)
+    nloki = sum(1 for x in ok if x.get("has_loki"))
+    nhdr = sum(1 for x in ok if x.get("has_hdr"))
+    ck.obligation("correspondence: the label list a decoder stored, pushed as a Loki stream, gets fingerprint (sanitize (list)) (%d requests)" % nloki,
+                  not res["M_ploki"] and nloki > 0, "case ids: %s" % res["M_ploki"][:10])
+    ck.obligation("spec: OUTSIDE the class of finding labels-unsanitized-by-protocol the label list of every decoder gets the same fingerprint through Loki (%d of %d requests are outside)" % (
+                  nloki - len(res["C_unsan"]), nloki), not res["V_pproto"], "case ids: %s" % res["V_pproto"][:10])
+    ck.obligation("spec: OUTSIDE the class of finding ttl-label-kept-with-ttl-header a TTL header does not change the fingerprint (%d pushes with the header, %d of them without the control label)" % (
+                  nhdr, sum(1 for x in ok if x["class"] == "loki_ttl_header_only")), not res["V_phdr"], "case ids: %s" % res["V_phdr"][:10])
+    if res["V_pproto"]:
+        c = min((byid[i] for i in res["V_pproto"]), key=size)
+        ck.violation({"property": "C04", "part": "protos", "kind": "the fingerprint of a label set depends on the ingest protocol (outside the recorded finding: sanitizeLabels leaves this label list unchanged)",
+                      "case": c, "readable": show_proto(c), "fingerprint of the same labels through Loki": c.get("fp_loki"), "explanation": "pv_proto_new (model/ProtoLabels.v)",
+                      "replay": "seriesid --mode protos --seed %s --n %d (case id %d)" % (ck.seed, n, c["id"])})
+    if res["V_phdr"] and not ck.violations:
+        c = min((byid[i] for i in res["V_phdr"]), key=size)
+        ck.violation({"property": "C04", "part": "protos", "kind": "the fingerprint of a label set depends on whether the request carried a TTL header (outside the recorded finding: no __ttl_days__ label in the stream)",
+                      "case": c, "readable": show_proto(c), "fingerprint with X-Ttl-Days: 7": c.get("fp_hdr"), "explanation": "pv_hdr_new (model/ProtoLabels.v)",
+                      "replay": "seriesid --mode protos --seed %s --n %d (case id %d)" % (ck.seed, n, c["id"])})
+    # the READ side's own decoder on the stored text: same pairs as a strict JSON reading of the document (Python's), which
+    # pv_doc ties to the label list the decoder built
+    def strict_pairs(c):
+        try:
+            return sorted((k.encode("utf-8", "surrogatepass").hex(), v.encode("utf-8", "surrogatepass").hex())
+                          for k, v in json.loads(unhex(c["doc"]).decode("utf-8"), object_pairs_hook=lambda ps: ps))
+        except Exception as e:  # noqa: BLE001
+            return "not JSON: %s" % e
+    rdbad = []
+    for c in ok:
+        want = strict_pairs(c)
+        if isinstance(want, list) and len(set(k for k, _ in want)) < len(want):
+            continue    # duplicate names: outside the property's quantifier (a Go map keeps the last value)
+        if c.get("rd_err") or sorted(map(tuple, c.get("rd") or [])) != want:
+            rdbad.append(c)
+    ck.obligation("spec: the reader's decoder of stored label documents (storedLabels) returns exactly the members of the labels text these decoders stored (%d documents)" % len(ok),
+                  not rdbad, "case ids: %s" % [(c["id"], c.get("rd_err")) for c in rdbad[:5]])
+    if rdbad and not ck.violations:
+        c = min(rdbad, key=size)
+        ck.violation({"property": "C04", "part": "protos", "kind": "the reader's decoder of stored label documents does not return the labels the document was written for",
+                      "case": c, "readable": show_proto(c), "reader": c.get("rd_err") or c.get("rd"),
+                      "replay": "seriesid --mode protos --seed %s --n %d (case id %d)" % (ck.seed, n, c["id"])})
     if res["V_pperm"]:
         c = min((byid[i] for i in res["V_pperm"]), key=size)
         ck.violation({"property": "C04", "part": "protos", "kind": "fingerprint depends on the order the request presents its labels in",
@@ -379,16 +459,11 @@ def run_protos(ck):
                       "replay": "seriesid --mode protos --seed %s --n %d (case id %d)" % (ck.seed, n, c["id"])})
     ck.obligation("correspondence: with a TTL header the control label __ttl_days__ stays in the fingerprinted list (on_entries_labels)", not res["M_phdr"],
                   "case ids: %s" % res["M_phdr"][:10])
-    mm = res["M_pfp"] + res["M_pdjb"] + res["M_pdoc"] + res["M_phdr"]
-    if mm and not ck.violations:
-        c = min((byid[i] for i in mm), key=size)
-        ck.violation({"property": "C04", "part": "protos", "kind": "model/implementation disagree on the label list or fingerprint of a protocol; spec oracles still accept",
-                      "case": c, "readable": show_proto(c), "broken": [k for k in ("M_pfp", "M_pdjb", "M_pdoc", "M_phdr") if c["id"] in res[k]]}, no_input=True)
     if res["K_hdr"]:
         c = min((byid[i] for i in res["K_hdr"]), key=size)
         if "ttl-label-kept-with-ttl-header" in ck.known_findings():
-            ck.report_known("ttl-label-kept-with-ttl-header", "%d of %d Loki pushes carrying a __ttl_days__ label get another fingerprint when the request has a TTL header, e.g. %s (with header: %s)" % (
-                len(res["K_hdr"]), sum(1 for x in ok if x.get("has_hdr")), json.dumps(show_proto(c))[:400], c.get("fp_hdr")))
+            ck.report_known("ttl-label-kept-with-ttl-header", "%d of %d Loki pushes carrying a __ttl_days__ label get another fingerprint when the request has a TTL header (exactly the class in_ttl_class; %d pushes with the header and no control label keep theirs), e.g. %s (with header: %s)" % (
+                len(res["K_hdr"]), sum(1 for x in ok if x["class"] == "loki_ttl_label"), sum(1 for x in ok if x["class"] == "loki_ttl_header_only"), json.dumps(show_proto(c))[:400], c.get("fp_hdr")))
         else:
             ck.violation({"property": "C04", "part": "protos", "kind": "the fingerprint of a label set depends on whether the request carried a TTL header",
                           "case": c, "readable": show_proto(c), "fingerprint with X-Ttl-Days: 7": c.get("fp_hdr"), "explanation": "pv_hdr (model/ProtoLabels.v)",
@@ -399,12 +474,17 @@ def run_protos(ck):
             bycls = {}
             for i in res["K_unsan"]:
                 bycls[byid[i]["class"]] = bycls.get(byid[i]["class"], 0) + 1
-            ck.report_known("labels-unsanitized-by-protocol", "%d of %d generated requests %s store labels sanitizeLabels would have changed, e.g. %s" % (
-                len(res["K_unsan"]), len(ok), json.dumps(bycls), json.dumps(show_proto(c))[:500]))
+            ck.report_known("labels-unsanitized-by-protocol", "%d of %d generated requests %s store labels sanitizeLabels would have changed and get another fingerprint than the same labels through Loki (exactly the class in_unsanitized_class: %d requests in the class, %d of them with equal fingerprints; 0 outside it differ), e.g. %s (through Loki: %s)" % (
+                len(res["K_unsan"]), len(ok), json.dumps(bycls), len(res["C_unsan"]), len(res["C_unsan_same"]), json.dumps(show_proto(c))[:500], c.get("fp_loki")))
         else:
             ck.violation({"property": "C04", "part": "protos", "kind": "a decoder stores labels that are not sanitized (the same label set through Loki gets another fingerprint)",
-                          "case": c, "readable": show_proto(c), "explanation": "pv_unsanitized (model/ProtoLabels.v)",
+                          "case": c, "readable": show_proto(c), "fingerprint of the same labels through Loki": c.get("fp_loki"), "explanation": "pk_unsan (model/ProtoLabels.v)",
                           "replay": "seriesid --mode protos --seed %s --n %d (case id %d)" % (ck.seed, n, c["id"])})
+    mm = res["M_pfp"] + res["M_pdjb"] + res["M_pdoc"] + res["M_phdr"] + res["M_ploki"]
+    if mm and not ck.violations:
+        c = min((byid[i] for i in mm), key=size)
+        ck.violation({"property": "C04", "part": "protos", "kind": "model/implementation disagree on the label list or fingerprint of a protocol; spec oracles still accept",
+                      "case": c, "readable": show_proto(c), "broken": [k for k in ("M_pfp", "M_pdjb", "M_pdoc", "M_phdr", "M_ploki") if c["id"] in res[k]]}, no_input=True)
     hist = {}
     for c in cases:
         hist[c["class"]] = hist.get(c["class"], 0) + 1
@@ -415,6 +495,9 @@ def run_protos(ck):
                             "non-ASCII, astral non-printables and > 100 bytes, each sent in 3 wire orders (OTLP: 4 map iterations) and once under FingerPrintType = Bernstein; non-trivial = at least 3 distinct strings in the label list, distinct by content. ")
     ck.extra["protos_input_classes"] = hist
     ck.extra["protos_unsanitized"] = len(res["K_unsan"])
+    ck.extra["protos_finding_classes"] = {"in_unsanitized_class": len(res["C_unsan"]), "of them with another fingerprint through Loki": len(res["K_unsan"]),
+                                          "outside, pushed through Loki too": nloki - len(res["C_unsan"]), "ttl header + control label": len(res["K_hdr"]),
+                                          "ttl header without control label": sum(1 for x in ok if x["class"] == "loki_ttl_header_only")}
     ck.add_samples([show_proto(c) for c in ok if c["class"] == "otlp_logs"][:1])
 
 
@@ -447,6 +530,15 @@ def hcase_to_coq(c):
             acts.append("PushBad %s" % coq_list(ss))
         elif k == "begin":
             acts.append("Begin %s" % coq_list(ss))
+        elif k == "beginf":
+            # the streams are parsed, the last one crosses 1 MiB: the chunk is sent while the body stays open
+            acts.append("Begin %s" % coq_list(ss))
+            acts.append("Flush %d%%nat %s %s" % (st.get("idx", 0), tf(st["ts_ok"]), tf(st["spl_ok"])))
+        elif k == "more":
+            acts.append("More %d%%nat %s" % (st.get("idx", 0), coq_list(ss)))
+        elif k == "moref":
+            acts.append("More %d%%nat %s" % (st.get("idx", 0), coq_list(ss)))
+            acts.append("Flush %d%%nat %s %s" % (st.get("idx", 0), tf(st["ts_ok"]), tf(st["spl_ok"])))
         elif k == "end":
             acts.append("End %d%%nat %s %s" % (st.get("idx", 0), tf(st["ts_ok"]), tf(st["spl_ok"])))
         elif k == "abort":
@@ -459,7 +551,13 @@ def hcase_to_coq(c):
                 rows += ["(%s, %d, %s)" % (r[0], fid(r[1]), r[2]) for r in cl["rows"] or []]
             elif cl["table"] == "samples":
                 spl += ["(%d, day_of %s, %s)" % (fid(r[0]), coq_u64(r[1]), r[2]) for r in cl["rows"] or []]
-        if k == "begin" and not ob["calls"]:
+        if k in ("beginf", "moref"):
+            # two model actions: the parse (shows nothing) and the flush (whatever reached the client during the step)
+            obs.append("HBegin")
+            obs.append("HFlush %s %s" % (coq_list(rows), coq_list(spl)))
+        elif k == "more":
+            obs.append("HFlush %s %s" % (coq_list(rows), coq_list(spl)) if ob["calls"] else "HBegin")
+        elif k == "begin" and not ob["calls"]:
             obs.append("HBegin")
         elif k in ("bad", "abort") and ob["status"] == 400 and not ob["calls"]:
             obs.append("HBad")
@@ -515,8 +613,16 @@ def show_hist(c):
             d = {"push whose body is malformed after these streams": streams}
         elif k == "begin":
             d = {"push begins, body stays open after these streams": streams}
+        elif k == "beginf":
+            d = {"push begins as open push number %d; the last of these streams has a log line of 1.1 MB (entry with big = true), so the parser sends this chunk now (> 1 MiB) while the body stays open" % st.get("idx", 0): streams,
+                 "scripted for the inserts of this chunk": scripted}
+        elif k == "more":
+            d = {"open push number %d (oldest = 0) goes on with these streams (nothing is sent yet)" % st.get("idx", 0): streams}
+        elif k == "moref":
+            d = {"open push number %d (oldest = 0) goes on with these streams; the last one has a log line of 1.1 MB, so the parser sends the chunk collected since the previous one now" % st.get("idx", 0): streams,
+                 "scripted for the inserts of this chunk": scripted}
         elif k == "end":
-            d = {"open push number %d (oldest = 0) completes" % st.get("idx", 0): scripted}
+            d = {"open push number %d (oldest = 0) completes (its last chunk is sent, then the status is decided over the inserts of all its chunks)" % st.get("idx", 0): scripted}
         elif k == "abort":
             d = {"open push number %d (oldest = 0) continues with a malformed body" % st.get("idx", 0): True}
         d["status"] = ob["status"]
@@ -583,7 +689,7 @@ def run_hist(ck):
                       "replay": "seriesid --mode hist --cases <file with this case>"})
     ck.obligation("correspondence: model SeriesIndex.run_obs = implementation (status, series rows sent, samples sent) on %d histories" % len(ok),
                   not res["M_hist"] and not panics, "mismatching case ids: %s" % res["M_hist"][:10])
-    ck.obligation("spec: every acknowledged sample has a successfully inserted series row of its day and type, in every history (insert failures, retries, malformed bodies, overlapping pushes, resets)",
+    ck.obligation("spec: every acknowledged sample has a successfully inserted series row of its day and type, in every history (insert failures per chunk, retries, malformed bodies, overlapping pushes, requests above 1 MiB sent in several chunks, resets)",
                   not res["V_hist"], "case ids: %s" % res["V_hist"][:10])
     if res["V_hist"]:
         c = min((byid[i] for i in res["V_hist"]), key=size)
@@ -599,7 +705,7 @@ def run_hist(ck):
     kinds = {}
     for c in cases:
         hist[c["class"]] = hist.get(c["class"], 0) + 1
-        if sum(1 for st in c["steps"] if st["k"] in ("push", "bad", "begin")) >= 2:
+        if sum(1 for st in c["steps"] if st["k"] in ("push", "bad", "begin", "beginf")) >= 2:
             distinct.add(json.dumps(c["steps"]))
         for st in c["steps"]:
             kinds[st["k"]] = kinds.get(st["k"], 0) + 1
@@ -609,12 +715,24 @@ def run_hist(ck):
     ck.obligation("histories with series whose announcement keys agree on 32 bits were generated", ncol >= 9, "%d collision histories" % ncol)
     ck.coverage["rule"] += ("hist: histories of 1..8 steps (push of 1..3 streams over 4 label sets and 2 days incl. instants at midnight, client retry of the previous body, "
                             "push whose body is malformed after its streams, push whose body stays open while other steps run and is completed or continued malformed later in any order, cache reset) "
-                            "with scripted outcomes of the series and the samples insert, plus 36 two-series histories whose announcement keys agree on the low / middle / high 32 bits, run through the in-process writer built by the production wiring (plugin.CreateStaticServiceRegistry: real GoCache and serializer); non-trivial = at least 2 pushes, distinct by content. ")
+                            "with scripted outcomes of the series and the samples insert; histories of 3..12 steps around requests above 1 MiB (a stream with a log line of 1.1 MB makes onEntries hand over the chunk collected so far while the body stays open: "
+                            "begin + flush, further streams - often the same series again - with or without another flush, end or malformed continuation, each chunk's two inserts with their own scripted outcomes, "
+                            "ordinary pushes of the same series in between, up to two such requests open at once, the whole long request sent again, resets), plus 36 two-series histories whose announcement keys agree on the low / middle / high 32 bits, run through the in-process writer built by the production wiring (plugin.CreateStaticServiceRegistry: real GoCache and serializer); non-trivial = at least 2 pushes, distinct by content. ")
     ck.extra["hist_input_classes"] = hist
     ck.extra["hist_step_kinds"] = kinds
     nover = sum(1 for c in cases if c["class"].startswith("overlap"))
     nbad = sum(1 for c in cases if any(st["k"] in ("bad", "abort") for st in c["steps"]))
     ck.obligation("histories with overlapping pushes and with malformed bodies were generated", nover >= 10 and nbad >= 10, "%d overlapping, %d with a malformed body" % (nover, nbad))
+    # mid-request flushes: the step made the parser send a chunk (sample rows reached the client) while the body stayed open
+    flushed = lambda c: [(st, ob) for st, ob in zip(c["steps"], c["obs"]) if st["k"] in ("beginf", "moref") and any(cl["table"] == "samples" and cl["rows"] for cl in ob.get("calls") or [])]
+    nflush = sum(1 for c in cases if flushed(c))
+    nflfail = sum(1 for c in cases if any(not (st["ts_ok"] and st["spl_ok"]) for st, _ in flushed(c)))
+    nfltsfail = sum(1 for c in cases if any(not st["ts_ok"] and any(cl["table"] == "time_series" and not cl["ok"] for cl in ob["calls"]) for st, ob in flushed(c)))
+    nchunks = sum(len(flushed(c)) for c in cases)
+    ck.extra["hist_mid_request_flushes"] = {"histories": nflush, "chunks sent while the body was open": nchunks, "histories with a failing insert of such a chunk": nflfail,
+                                            "histories where the series insert of such a chunk failed": nfltsfail}
+    ck.obligation("histories with requests above 1 MiB were generated and the parser did send their chunks mid-request, some with a failing insert of such a chunk",
+                  nflush >= 20 and nflfail >= 5 and nfltsfail >= 3, "%d histories with a mid-request flush (%d chunks), %d with a failing chunk, %d with a failed series insert of a chunk" % (nflush, nchunks, nflfail, nfltsfail))
     ck.add_samples([show_hist(c) for c in cases if len(c["steps"]) >= 2][:1])
 
 
@@ -754,15 +872,15 @@ def run(ck):
         "C04: city.CH64 on label strings is an oracle (per-case table from the exported function); Hash128to64 and CH64 over the 24 accumulator bytes are transcribed and checked by the correspondence; FingerPrintType = CityHash (default) only",
         "C04: strconv.IsPrint on runes > 0xFF is an oracle table (the round-trip theorems hold for every IsPrint); ClickHouse's JSON functions are assumed to accept RFC 8259 (LabelJson.v) documents; strings.ToValidUTF8 and the rune walk of `for range` are transcribed (to_valid, utf8_fix) and checked by the correspondence",
         "C04: fingerprint injectivity is conditional on collision-freeness hypotheses that are tested, not proved",
-        "C04 histories: the (day, fingerprint, type) cache key CH64(day || fp || type) is modelled as the triple itself (no collisions); fastcache has no false positives; the cache is the production GoCache; a cache reset runs the ticker's body through hook VerifC04Reset; CH64 collision-freeness of the 64-bit key is a hypothesis of announcement_cache_refines; requests stay below the 1 MiB mid-request flush; single node (the cache is disabled in cluster mode); the two inserts of a request and the cache update after them are one atomic step of the model (End); overlapping requests are driven through bodies that stay open (io.Pipe), one completion at a time",
+        "C04 histories: the (day, fingerprint, type) cache key CH64(day || fp || type) is modelled as the triple itself (no collisions); fastcache has no false positives; the cache is the production GoCache; a cache reset runs the ticker's body through hook VerifC04Reset; CH64 collision-freeness of the 64-bit key is a hypothesis of announcement_cache_refines; the mid-request flush above 1 MiB is modelled (Flush k: the chunk of the k-th open request is sent with its own insert outcomes; More k: it parses further streams; the model allows a flush at any stream boundary) and driven with real 1.1 MB log lines, one flush / continuation / completion at a time: the two inserts of a chunk are one atomic step of the model, so are the last chunk's inserts, the decision over all chunks and the cache update (End); chunks of different requests never share an INSERT batch in the runs (the insert service would couple their outcomes; the theorems quantify over all outcomes); single node (the cache is disabled in cluster mode); overlapping requests are driven through bodies that stay open (io.Pipe)",
         "C04 dates: ch-go's ToDate and Go's time.Truncate are transcribed (checked by the correspondence over 32 zones); the reader's own zone (upper date bound) belongs to C13",
     ]
     ck.coq_props()
     if not ck.go_build("seriesid"):
         ck.obligation("harness seriesid builds against the repo (hook zz_verif_export_c04.go present)", False, ck.build_out[-1500:])
         return
-    run_labels(ck)
-    run_protos(ck)
-    run_hist(ck)
-    run_keys(ck)
-    run_dates(ck)
+    # VERIF_C04_PARTS=labels,protos runs only these parts (development aid; the evidence of such a run is partial)
+    parts = [x for x in os.environ.get("VERIF_C04_PARTS", "").split(",") if x]
+    for name, fn in (("labels", run_labels), ("protos", run_protos), ("hist", run_hist), ("keys", run_keys), ("dates", run_dates)):
+        if not parts or name in parts:
+            fn(ck)
